@@ -1,5 +1,6 @@
-CONSTANTS MaxLen = 4 MaxNan = 2 Vals <- MCVals
+CONSTANTS MaxN = 2 MaxDepth = 4 Lat <- MCLat
 INIT Init
 NEXT Next
+VIEW View
 INVARIANT Dump
 CHECK_DEADLOCK FALSE
